@@ -28,3 +28,5 @@ git -C /repo apply "$out/patch.diff" || exit 2
 ./check "$prop" quick </dev/null 2>&1 | grep -E "VIOLATION|KNOWN|PROOF-LOST|UNSTABLE|property=" | cut -c1-260
 git -C /repo checkout -- .
 git -C /repo status --short | head -3
+# restore the evidence of the unchanged tree (the check above rewrote it on the changed tree)
+git -C /verif checkout -- evidence; rm -rf /verif/evidence/replays
